@@ -51,6 +51,10 @@ func validateVisitorBaseConfig(c *v1.VisitorBaseConfig) error {
 	if c.BindPort == 0 {
 		return errors.New("bind port is required")
 	}
+	// a negative bind port means "do not listen" and is allowed
+	if c.BindPort > 65535 {
+		return fmt.Errorf("bindPort: port number %d must not be greater than 65535", c.BindPort)
+	}
 	return nil
 }
 
